@@ -11,7 +11,7 @@ Stage C (models + theorems): coq/Properties/Properties_C14.v, step correspondenc
 Feldman models (see run())."""
 import os, json, re, time, hashlib, glob, subprocess
 from concurrent.futures import ThreadPoolExecutor
-import vcheck, conc_check
+import vcheck, conc_check, conc_windows2
 
 HDIR = os.path.join(vcheck.VERIF, "harness", "C14")
 EXTRA_LINK = ("-Wl,--no-as-needed", "-latomic")
@@ -273,6 +273,91 @@ def gen_step_splitlist(rng, n):
 
 
 # ------------------------------------------------------------------------------------------------------------
+# model-guided window schedules for the two step models (lib/conc_windows2.py): thread 0 fills the set, then 2-3 participants
+# collide on the same slot / bucket / list position; the victim is stalled before each of its CAS (and before every other
+# access), the actor runs exactly through one of its writes (or its whole program), also from the states in which a third
+# participant is parked right after one of ITS writes (slot being expanded, node marked but not unlinked, bucket being
+# initialised).
+#   (name, index into FHASH / SHASH, (head bits, array bits) | table capacity, set-up operations, programs of the participants)
+WINDOW_FELDMAN = [
+    ("same_slot_ins_ins", 2, (4, 2), [], [[[1, 0]], [[1, 1]], [[1, 0]]]),
+    ("expand_vs_erase", 2, (4, 2), [[1, 0]], [[[1, 1]], [[7, 0]], [[13, 0]]]),
+    ("erase_erase_update", 2, (4, 2), [[1, 0], [1, 1]], [[[7, 0]], [[7, 0]], [[3, 0]]]),
+    ("update_update_erase", 0, (4, 2), [[1, 0]], [[[3, 0]], [[4, 0]], [[7, 0]]]),
+    ("expand_three", 2, (4, 2), [[1, 0]], [[[1, 1]], [[1, 2]], [[7, 0]]]),
+    ("erase_then_ins", 0, (4, 2), [[1, 0]], [[[7, 0], [1, 0]], [[1, 0]], [[13, 0]]]),
+    ("deep_expand", 1, (4, 2), [[1, 0]], [[[1, 1]], [[7, 0]], [[3, 1]]]),
+    ("ins_erase_pairs", 2, (4, 2), [], [[[1, 0], [7, 0]], [[1, 1], [7, 1]]]),
+    ("wide_arrays", 3, (4, 4), [[1, 0], [1, 2]], [[[1, 4]], [[7, 0]], [[3, 2]]]),
+]
+WINDOW_SPLITLIST = [
+    ("same_key_same_bucket", 0, 32, [], [[[1, 1]], [[1, 1]], [[13, 1]]]),
+    ("growth", 0, 32, [[1, 0], [1, 1]], [[[1, 2]], [[1, 3]], [[7, 1]]]),
+    ("one_bucket", 1, 32, [[1, 0]], [[[1, 1]], [[7, 0]], [[1, 2]]]),
+    ("same_low_bits", 3, 32, [[1, 0]], [[[1, 1]], [[1, 2]], [[7, 0]]]),
+    ("colliding_hashes", 2, 32, [[1, 0]], [[[7, 0], [1, 0]], [[13, 0], [1, 3]], [[1, 2]]]),
+    ("erase_erase_ins", 0, 32, [[1, 0], [1, 1], [1, 2]], [[[7, 1]], [[7, 1]], [[1, 1]]]),
+    ("bucket_chain", 0, 64, [], [[[1, 3]], [[1, 1]], [[1, 5]]]),
+    ("erase_neighbours", 4, 32, [[1, 0], [1, 1], [1, 2]], [[[7, 0]], [[7, 1]], [[1, 3]]]),
+]
+WINDOW_QUICK_PER_MODEL = 420
+WINDOW_QUICK_CANDIDATES = 3000
+WINDOW_THOROUGH_PER_MODEL = 12000        # beyond that: stratified subsample of the enumeration
+
+
+def gen_window_cases(ctx, tag, model, rng):
+    """-> (cases, generator info); quick: model-guided selection of WINDOW_QUICK_PER_MODEL schedules, thorough: the enumeration"""
+    templates = []
+    if tag == "feldman":
+        for name, hi, (hb, ab), setup, parts in WINDOW_FELDMAN:
+            templates.append({"name": name, "cfg": [60, hb, ab] + FHASH[hi], "threads": [setup] + parts, "setup": 1})
+    else:
+        for name, hi, cap, setup, parts in WINDOW_SPLITLIST:
+            templates.append({"name": name, "cfg": [80, cap] + SHASH[hi], "threads": [setup] + parts, "setup": 1})
+    th = ctx.thorough()
+    wdir = os.path.join(ctx.work, "wprobe_" + tag)
+    cases, info = conc_windows2.expand(model, wdir, templates, "w%s_" % tag[:2], fuel=60000,
+                                       r_values=tuple(range(0, 13)) if th else (0, 1, 2, 3, 5, 8, 12), read_points=True,
+                                       staged=True, max_ws=4 if th else 2, staged_max_wa=4 if th else 3,
+                                       staged_r_values=(0, 1, 2, 3, 5, 8) if th else (0, 1, 3, 6), lazy=True)
+    info["enumerated"] = len(cases)
+    if th:
+        cases = conc_windows2.stratified(rng, cases, WINDOW_THOROUGH_PER_MODEL)
+    else:
+        cases = conc_windows2.stratified(rng, cases, WINDOW_QUICK_CANDIDATES)
+        paths = conc_windows2.model_paths(model, wdir, cases, "w" + tag[:2], fuel=60000)
+        cases, info["selection"] = conc_windows2.select_by_cover(rng, cases, paths, WINDOW_QUICK_PER_MODEL)
+    cases = conc_windows2.finalize(cases)
+    info["run"] = len(cases)
+    info.pop("per_template", None)
+    return cases, info
+
+
+def step_history(lines, keys):
+    """lincheck (SetSpec) text of one step-harness log + the quiescent contents as reads of an observer thread"""
+    h = []
+    cur = {}
+    for l in lines:
+        t = l.split(" ")
+        if len(t) < 3 or t[1] != "ev":
+            continue
+        tid = t[0]
+        if t[2] == "inv":
+            code, k = int(t[3]), int(t[4])
+            op = {1: "insert %d" % k, 3: "update %d true" % k, 4: "update %d false" % k, 7: "erase %d" % k}.get(code, "contains %d" % k)
+            cur[tid] = code
+            h.append("inv %s %s" % (tid, op))
+        elif t[2] == "ret" and tid in cur:
+            code = cur.pop(tid)
+            a, b = int(t[3]), int(t[4])
+            h.append("res %s %s" % (tid, ("pair %s %s" % ("true" if a else "false", "true" if b else "false")) if code in (3, 4) else ("true" if a else "false")))
+    if keys is not None:
+        for k in range(6):
+            h += ["inv 90 contains %d" % k, "res 90 %s" % ("true" if k in keys else "false")]
+    return h
+
+
+# ------------------------------------------------------------------------------------------------------------
 # running and deciding
 
 def parse_output(text):
@@ -505,6 +590,8 @@ def step_stage(ctx, n):
                     raise
         rng = vcheck.SplitMix64(ctx.seed * 31 + len(tag))
         cases = globals()[gen](rng, n)
+        wcases, winfo = gen_window_cases(ctx, tag, model, vcheck.SplitMix64(ctx.seed * 131 + len(tag)))
+        cases = cases + wcases
         # split into chunks: all cores
         chunks = [cases[j::8] for j in range(8)]
         def one(j):
@@ -513,8 +600,10 @@ def step_stage(ctx, n):
             return conc_check.run_both(ctx, model, impl, chunks[j], tag="step_%s_%d" % (tag, j), fuel=60000)
         with ThreadPoolExecutor(max_workers=8) as ex:
             outs = list(ex.map(one, range(8)))
-        st = {"cases": len(cases), "agree": 0, "diverged": 0, "model_out_of_fuel": 0, "impl_steps_compared": 0, "contended": 0,
+        st = {"cases": len(cases), "agree": 0, "diverged": 0, "diverged_window_schedules": 0, "model_out_of_fuel": 0, "impl_steps_compared": 0, "contended": 0,
               "monitor_bad": 0, "modelled": what}
+        allimpl = {}
+        hist_cases = []
         for j, o in enumerate(outs):
             if o is None:
                 continue
@@ -526,6 +615,13 @@ def step_stage(ctx, n):
                     divs.append((tag, c, {"index": -1, "model": "<no output>" if m is None else "ok", "impl": "<no output>" if i is None else "ok", "prefix": []}))
                     continue
                 st["impl_steps_compared"] += len(i["lines"])
+                allimpl[c["id"]] = i
+                fkeys = None
+                for x in i["extra"]:
+                    if x.startswith("monitor keys"):
+                        fkeys = [int(z) for z in x.split()[2:]]
+                if i["end"] == "finished":
+                    hist_cases.append((c, step_history(i["lines"], fkeys)))
                 for x in i["extra"]:
                     if x.startswith("monitor keys"):
                         ks = x.split()[2:]
@@ -538,19 +634,71 @@ def step_stage(ctx, n):
                     continue
                 if d is not None:
                     st["diverged"] += 1
+                    st["diverged_window_schedules"] += 1 if c.get("kind") == "window" else 0
                     divs.append((tag, c, d))
                 else:
                     st["agree"] += 1
                     if any(l.split(" ")[1] == "cas" and l.endswith(" 0") for l in m["lines"]):
                         st["contended"] += 1          # at least one failed CAS: threads really interfered
+        # implementation-side monitor of the step harness: the history of every window schedule (and, once the correspondence
+        # has broken, of every step case) + the quiescent contents is decided by the verified lincheck
+        todo = [(c, h) for c, h in hist_cases if c.get("kind") == "window" or st["diverged"]]
+        lin = getattr(ctx, "c14_lincheck", None)
+        st["step_histories_decided_by_lincheck"] = 0
+        if lin and todo:
+            for (c, h), v in zip(todo, decide(lin, "set", [h for _, h in todo])):
+                st["step_histories_decided_by_lincheck"] += 1
+                if v != "OK":
+                    st["monitor_bad"] += 1
+                    ctx.violation("history of the real container in the %s step harness is not linearizable to the sequential set, or its contents after the run disagree with every linearization (verified lincheck: %s)" % (tag, v),
+                                  {"step": tag, "case": c, "history": h, "impl_log": allimpl[c["id"]]["lines"][:600]})
+        ws = conc_windows2.event_stats(cases, allimpl)
+        ws["generator"] = winfo
+        ws["rule"] = ("victim stalled before each CAS and before every other access, actor runs exactly through one of its writes (measured on the model in "
+                      "that state) or its whole program, victim gets r more steps, third thread before / after / in between; also from states with a participant "
+                      "parked right after one of its writes; with_retry_path = a thread executed more CAS than in its solo run")
+        st["window_schedules"] = ws
+        ctx.log("step[%s] windows: %d schedules, %d with a failed CAS, %d with a retry/helping path, %d diverged" % (tag, ws["window_cases"], ws["with_failed_cas"], ws["with_retry_path"], st["diverged_window_schedules"]))
         stats[tag] = st
     return stats, divs
+
+
+def step_replay(ctx, lincheck, tag, case):
+    """re-run one step case on model and real code: first divergence + verdict of the verified lincheck on the real history"""
+    spec = [m for m in STEP_MODELS if m[0] == tag][0]
+    model = conc_check.build_model(ctx, spec[1], tag="model_" + tag)
+    impl = vcheck.cxx_build(os.path.join(HDIR, spec[2]), os.path.join(ctx.work, "step", spec[2][:-4]), hook=True,
+                            extra=("-I" + HDIR, "-DC14_HDR=" + hdr_hash()) + EXTRA_LINK)
+    c = {k: case[k] for k in ("id", "cfg", "threads", "sched")}
+    rc1, ml, rc2, il, raw = conc_check.run_both(ctx, model, impl, [c], tag="step_replay", fuel=60000)
+    m = ml.get(c["id"]); i = il.get(c["id"])
+    if m is None or i is None:
+        ctx.violation("step harness %s: no output on the replayed case" % tag, {"step": tag, "case": case})
+        return 1
+    d = conc_check.compare(m, i)
+    fkeys = None
+    for x in i["extra"]:
+        if x.startswith("monitor keys"):
+            fkeys = [int(z) for z in x.split()[2:]]
+    h = step_history(i["lines"], fkeys)
+    v = decide(lincheck, "set", [h])[0] if i["end"] == "finished" else "not finished"
+    ctx.log("step replay %s: first divergence %s, lincheck %s" % (tag, d, v))
+    if v not in ("OK", "not finished"):
+        ctx.violation("history of the real container in the %s step harness is not linearizable to the sequential set, or its contents after the run disagree with every linearization (verified lincheck: %s)" % (tag, v),
+                      {"step": tag, "case": case, "history": h})
+        return 1
+    if d is not None and "outoffuel" not in d["model"]:
+        ctx.violation("step correspondence between the %s model and the real code no longer holds" % tag, {"step": tag, "case": case, "first_divergence": d}, no_input=True)
+        return 1
+    return 0
 
 
 def replay(ctx, lincheck):
     rp = json.load(open(ctx.replay))
     shard = rp.get("shard")
     case = rp.get("case")
+    if rp.get("step") and case:
+        return step_replay(ctx, lincheck, rp["step"], case)
     if not shard or not case:
         ctx.log("replay file has no shard/case: nothing to re-run")
         return 0
@@ -578,17 +726,28 @@ def run(ctx):
         res = vcheck.coq_build(props)
         ctx.coq_evidence(res)
     per_variant = 400 if ctx.thorough() else 60
+    ctx.c14_lincheck = lincheck
     t0 = time.time()
-    stats, ncases, bad, ncorpus = breadth(ctx, lincheck, per_variant)
+    if os.environ.get("VERIF_ONLY") == "step":
+        # mutation experiments on the step-modelled code: the breadth stage (19 harness shards) is skipped
+        stats, ncases, bad, ncorpus = {}, 0, 0, 0
+        ctx.coverage["restricted_run"] = "VERIF_ONLY=step"
+    else:
+        stats, ncases, bad, ncorpus = breadth(ctx, lincheck, per_variant)
     ctx.log("breadth: %d cases over %d variants, %d bad, %.1fs" % (ncases, len(stats), bad, time.time() - t0))
     t1 = time.time()
     sstats, divs = step_stage(ctx, 6000 if ctx.thorough() else 1000)
     ctx.log("step correspondence: %s, %.1fs" % ({k: (v["agree"], v["diverged"]) for k, v in sstats.items()}, time.time() - t1))
     if divs and bad == 0 and not any(v["monitor_bad"] for v in sstats.values()):
         # the correspondence broke and neither lincheck on the breadth run nor the monitors found a failing input
-        tag, c, d = divs[0]
-        ctx.violation("step correspondence between the %s model and the real code no longer holds" % tag,
-                      {"correspondence": [m[4] for m in STEP_MODELS if m[0] == tag][0], "case": c, "first_divergence": d, "diverged_cases": len(divs)}, no_input=True)
+        seen = set()
+        for tag, c, d in divs:          # the first divergence of every step model
+            if tag in seen:
+                continue
+            seen.add(tag)
+            ctx.violation("step correspondence between the %s model and the real code no longer holds" % tag,
+                          {"step": tag, "correspondence": [m[4] for m in STEP_MODELS if m[0] == tag][0], "case": c, "first_divergence": d,
+                           "diverged_cases": sum(1 for x in divs if x[0] == tag)}, no_input=True)
     if res is not None and not res.ok:
         ctx.violation("Coq obligations of C14 do not check: %s" % (res.failed[:2],), {"theorem": [f[2] for f in res.failed], "errors": res.failed[:3]}, no_input=True)
     fam = {}
